@@ -31,13 +31,65 @@ type c20Scenario struct {
 	Changes string // ENV thread: 'A' put k1=b1, 'B' put k1=b2, 'D' delete k1, 'a' put k2=b1, 'd' delete k2, 'C' etcd compacts its history up to the current revision
 	Break   bool   // offer watch-stream breaks
 	FailGet bool   // after start-up, etcd reads of the router may fail (the reload after a stream break)
+	// Large > 0: large-keyspace world. Large leases (zero-padded names, all owned by b1) are in etcd before
+	// anything starts, so a client that paginates big range reads needs several requests for one full read.
+	// Changes there: 'F' re-assigns the first lease (in key order) to b2, 'L' deletes the last-but-one lease,
+	// 'l' puts it back owned by b2, 'N' creates a new lease that sorts right after the first one.
+	Large int `json:",omitempty"`
 }
 
 func (sc c20Scenario) String() string {
+	if sc.Large > 0 {
+		return fmt.Sprintf("group=%v|large-keyspace=%d|chg=%s|break=%v", sc.Group, sc.Large, sc.Changes, sc.Break)
+	}
 	if sc.FailGet {
 		return fmt.Sprintf("group=%v|init=%s|chg=%s|break=%v|reload-may-fail", sc.Group, sc.Initial, sc.Changes, sc.Break)
 	}
 	return fmt.Sprintf("group=%v|init=%s|chg=%s|break=%v", sc.Group, sc.Initial, sc.Changes, sc.Break)
+}
+
+// c20LargeKey is the i-th lease key (in key order) of the large-keyspace world.
+func c20LargeKey(group bool, i int) string {
+	if group {
+		return fmt.Sprintf("%s/g-%04d", groupLeasePrefix, i)
+	}
+	return fmt.Sprintf("%s/t%04d/0", partitionLeasePrefix, i)
+}
+
+func c20ApplyLarge(srv *fakeetcd.Server, sc c20Scenario, ch byte) {
+	switch ch {
+	case 'F':
+		_ = srv.DirectPut(c20LargeKey(sc.Group, 0), "b2", 0)
+	case 'L':
+		srv.DirectDelete(c20LargeKey(sc.Group, sc.Large-2))
+	case 'l':
+		_ = srv.DirectPut(c20LargeKey(sc.Group, sc.Large-2), "b2", 0)
+	case 'N':
+		if sc.Group {
+			_ = srv.DirectPut(groupLeasePrefix+"/g-0000a", "b2", 0)
+		} else {
+			_ = srv.DirectPut(partitionLeasePrefix+"/t0000/1", "b2", 0)
+		}
+	}
+}
+
+// c20Diff lists the entries in which two tables differ (the large-keyspace tables are too big to print).
+func c20Diff(got, want map[string]string) []string {
+	var out []string
+	for k, v := range want {
+		if g, ok := got[k]; !ok {
+			out = append(out, k+": table has no route, etcd "+v)
+		} else if g != v {
+			out = append(out, k+": table "+g+", etcd "+v)
+		}
+	}
+	for k, g := range got {
+		if _, ok := want[k]; !ok {
+			out = append(out, k+": table "+g+", etcd has no lease")
+		}
+	}
+	sort.Strings(out)
+	return out
 }
 
 func c20Apply(srv *fakeetcd.Server, group bool, ch byte) {
@@ -67,6 +119,9 @@ func c20Body(sc c20Scenario) func(s *sched.Sched) {
 		for _, ch := range []byte(sc.Initial) {
 			c20Apply(srv, sc.Group, ch)
 		}
+		for i := 0; i < sc.Large; i++ {
+			_ = srv.DirectPut(c20LargeKey(sc.Group, i), "b1", 0)
+		}
 		cli := srv.NewClient("r")
 		cli.BreakWatch = sc.Break
 		ctx, cancel := context.WithCancel(context.Background())
@@ -85,6 +140,10 @@ func c20Body(sc c20Scenario) func(s *sched.Sched) {
 		s.Go("ENV", func() {
 			for _, ch := range []byte(sc.Changes) {
 				sched.Env("env.change")
+				if sc.Large > 0 {
+					c20ApplyLarge(srv, sc, ch)
+					continue
+				}
 				c20Apply(srv, sc.Group, ch)
 			}
 		})
@@ -118,6 +177,28 @@ func c20Body(sc c20Scenario) func(s *sched.Sched) {
 			for _, r := range pr.AllRoutes() {
 				got[fmt.Sprintf("%s/%d", r.Topic, r.Partition)] = r.BrokerID
 			}
+		}
+		if sc.Large > 0 {
+			// same oracle, compact printing: the table must equal etcd entry by entry
+			if d := c20Diff(got, want); len(d) > 0 {
+				s.Fail("router-diverged", "routing table (%d routes) != etcd (%d leases): %v", len(got), len(want), d)
+			}
+			notB1 := map[string]string{}
+			for k, v := range got {
+				if v != "b1" {
+					notB1[k] = v
+				}
+			}
+			s.Note("routes=%d not-b1=%v", len(got), sortedKV(notB1))
+			cancel()
+			if pr != nil {
+				pr.Stop()
+			}
+			if gr != nil {
+				gr.Stop()
+			}
+			time.Sleep(3 * time.Second)
+			return
 		}
 		if fmt.Sprint(sortedKV(got)) != fmt.Sprint(sortedKV(want)) {
 			key := "router-diverged"
@@ -186,13 +267,38 @@ func c20Scenarios(thorough bool) []c20Scenario {
 			}
 		}
 	}
+	return append(out, c20LargeScenarios(thorough)...)
+}
+
+// c20LargeScenarios: keyspace-size dimension. etcd clients commonly read big ranges in pages; a full read
+// that takes several requests is not atomic unless the reader pins it to one revision and resumes the
+// watch from that revision. The world holds a few hundred leases before the router starts; one changer
+// re-assigns the first lease, deletes / re-creates one near the end, or creates one sorting near the front,
+// racing with router start-up (and the reload after a stream break) at etcd-operation granularity.
+func c20LargeScenarios(thorough bool) []c20Scenario {
+	sizes := []int{300}
+	changes := []string{"F", "L", "FL", "LF", "N", "FLl"}
+	if thorough {
+		sizes = []int{300, 1100}
+		changes = append(changes, "Ll", "NF", "FN", "LlF", "FNL")
+	}
+	var out []c20Scenario
+	for _, n := range sizes {
+		for _, group := range []bool{false, true} {
+			for _, ch := range changes {
+				for _, br := range []bool{false, true} {
+					out = append(out, c20Scenario{Group: group, Changes: ch, Break: br, Large: n})
+				}
+			}
+		}
+	}
 	return out
 }
 
 func TestVerifC20(t *testing.T) {
 	rep := vh.New(t, "C20")
 	defer rep.Finish()
-	rep.Rule = "for every closed system (initial leases x sequence of lease puts/deletes/compactions x router kind x breaks allowed x reload reads may fail): DFS over interleavings of router start-up (Get, Watch establishment), environment changes and watch deliveries, with stream-break decisions (deviation bound); after quiescence + virtual time for reconnects the table must equal etcd; distinct = distinct final tables per scenario; non-trivial = >=1 thread switch or break"
+	rep.Rule = "for every closed system (initial leases x sequence of lease puts/deletes/compactions x router kind x breaks allowed x reload reads may fail; plus large-keyspace worlds: a few hundred pre-loaded leases x changer sequences on the first / last-but-one / a new front lease): DFS over interleavings of router start-up (Get, Watch establishment), environment changes and watch deliveries, with stream-break decisions (deviation bound); after quiescence + virtual time for reconnects the table must equal etcd; distinct = distinct final tables per scenario; non-trivial = >=1 thread switch or break"
 	rep.Assumptions = []string{"fake etcd watch: events of one revision delivered as one batch in revision order; a broken stream ends with a canceled response and a closed channel, undelivered events lost", "virtual time (synctest) for the 1 s reconnect sleep"}
 	P, D := 2, 1
 	if vh.Thorough() {
@@ -240,7 +346,13 @@ func TestVerifC20(t *testing.T) {
 			}
 			for _, f := range x.Fails {
 				key := f.Key
-				if key == "router-diverged" {
+				if key == "router-diverged" && sc.Large > 0 {
+					if dev > 0 {
+						key = "router-diverged-large-keyspace-after-watch-break"
+					} else {
+						key = "router-diverged-large-keyspace-change-during-full-read"
+					}
+				} else if key == "router-diverged" {
 					if dev > 0 {
 						key = "router-diverged-after-watch-break"
 					} else {
